@@ -148,6 +148,14 @@ def run(e: Engine, rep: Report):
                  'puts every recipient into exactly one group (a recipient '
                  'that falls out of the grouping is struck off the message '
                  'and named in no bounce)', only={'B3'})
+    rep.rule('R1.25', 'what a relay hands back as the outcome of one '
+             'recipient is something the queue can classify: an exception '
+             'that a relay catches and then returns / files in its result '
+             'mapping is caught as a RelayError - any other class (OSError, '
+             'ValueError, ...) is no value Queue._handle_partial_relay '
+             'knows: the recipient is neither delivered, failed nor kept, '
+             'and with nobody left to retry the message is removed')
+    r125(e, rep)
     rep.floor('R1.2', 5, 'removal sites')
     rep.floor('R1.5', 3, 'backend uses of the index argument')
 
@@ -1257,3 +1265,62 @@ def r118(e: Engine, rep: Report, rule: str = 'R1.18'):
                   m.name, bad[0][0] if bad else '', bad[0][1] if bad else ''),
               loc=m.loc(y), reason='%d truthiness tests; no relay class '
               'overloads truthiness' % len(tests))
+
+
+# ------------------------------------------------------------------ R1.25
+def r125(e: Engine, rep: Report):
+    RERR = 'slimta.relay.RelayError'
+    n = 0
+    for f in sorted(e.p.functions.values(), key=lambda f: f.qname):
+        mn = f.module.name
+        if not (mn == 'slimta.relay' or mn.startswith('slimta.relay.')):
+            continue
+        for h in walk_own(f.node):
+            if not (isinstance(h, ast.ExceptHandler) and h.name):
+                continue
+            handed = None
+            for x in h.body:
+                for y in ast.walk(x):
+                    if isinstance(y, ast.Return) and \
+                            isinstance(y.value, ast.Name) and \
+                            y.value.id == h.name:
+                        handed = y
+                    elif isinstance(y, ast.Assign) and \
+                            isinstance(y.value, ast.Name) and \
+                            y.value.id == h.name and any(
+                                isinstance(t, ast.Subscript)
+                                for t in y.targets):
+                        handed = y
+            if handed is None:
+                continue
+            n += 1
+            rep.evaluations += 1
+            rep.functions.add(f.qname)
+            ts = h.type.elts if isinstance(h.type, ast.Tuple) else (
+                [h.type] if h.type is not None else [])
+            bad = []
+            for t in ts:
+                q = e.p.resolve_expr_qname(f.module, t)
+                if q is None or q not in e.p.classes or \
+                        not e.p.is_subclass(q, RERR):
+                    bad.append(ast.unparse(t))
+            if h.type is None:
+                bad.append('everything')
+            rep.check(not bad, 'R1.25', f.qname,
+                      '`%s` hands back relay errors only'
+                      % ' '.join(ast.unparse(handed).split())[:40],
+                      '%s catches %s and hands the exception back as the '
+                      'outcome of the delivery (`%s`): in a per-recipient '
+                      'result the queue looks for None / Reply / '
+                      'PermanentRelayError / TransientRelayError only - a '
+                      'recipient whose value is something else is not '
+                      'marked delivered, not bounced and not kept for the '
+                      'retry; when no other recipient failed transiently '
+                      'the message is removed without having been delivered'
+                      % (f.name, ', '.join(bad),
+                         ' '.join(ast.unparse(handed).split())[:40]),
+                      loc=f.loc(h), reason='except arm takes subclasses of '
+                      'RelayError')
+    if n < 1:
+        rep.error('anchor vanished: no relay returns a caught exception as '
+                  'a result')
